@@ -255,6 +255,10 @@ def run(ctx):
     wd = ctx["wd"]
     binary = build_harness("pkg/gossip", dirs=["gossip"])
     violations, known = [], []
+    # the receive loop itself (packetListener.Serve): datagrams read back to back, also ones that fill the read buffer exactly,
+    # must be handled like one delivery at a time each (monitor only)
+    gv, gcov = glue_probes(ID, binary, ctx["wd"], random.Random(ctx["seed"] + 17), ctx["tier"] == "quick", which=("burst",))
+    violations += gv
 
     # ---- A. codec sweep over every max
     ncodec = 120 if quick else 1500
@@ -349,6 +353,10 @@ def run(ctx):
     raws.append({"id": "noread-join", "bytes": "", "stream": True, "noread": True})
     raws.append({"id": "noread-join-junk", "bytes": bytes(rng.randrange(256) for _ in range(40)).hex(), "stream": True, "noread": True})
 
+    # a peer that goes away in the middle of a valid join request, at every byte offset: a request that is rejected is not
+    # applied in part
+    raws += [{"id": "joincut-%d" % k, "bytes": "", "stream": True, "joincut": k} for k in range(1, 260)]
+
     def run_raws(rs):
         """a crash of the whole process is bisected down to the datagram that causes it"""
         o, lg = run_harness(binary, {"mode": "hostile", "raw": rs}, wd, tag="hostile", timeout=600)
@@ -366,6 +374,10 @@ def run(ctx):
         if o["panic"]: bad = "handler panicked: " + o["panic"]
         elif o["timeout"]: bad = "handler did not return within 15 s" + (" (the peer sent a valid join and never read the reply: the stream deadline must bound the write too)" if r.get("noread") else "")
         elif not o["own_same"]: bad = "own published state changed by a received %s" % ("stream" if r["stream"] else "datagram")
+        elif r.get("joincut") and o["err"] and o.get("known", 0) > 0:
+            bad = "a join request cut after %d of %d bytes was rejected (error, no reply) and yet applied in part: the receiver now knows %d node(s)" % (r["joincut"], o.get("join_len", 0), o["known"])
+        elif r.get("joincut") and not o["err"] and r["joincut"] >= o.get("join_len", 10 ** 9) and o.get("known", 0) < 1:
+            bad = "a complete valid join request was accepted but not applied"
         if not o["err"]: nacc += 1
         if bad:
             violations.append({"what": "C13 hostile input: " + bad, "found_input": True,
@@ -385,12 +397,15 @@ def run(ctx):
                               "disagreements": len(cdis) + len(wdis), "seed": ctx["seed"]},
            "monitor": {"codec_contents": len(ccases), "histories": len(allc), "raw_hostile": len(raws), "raw_accepted_without_error": nacc,
                        "failures": len(cmon) + len(wmon)}}
+    cov["glue_probes"] = gcov
     return {"coverage": cov, "violations": violations, "known": known}
 
 
 def replay(path, wd):
     obj = json.load(open(path))
     binary = build_harness("pkg/gossip", dirs=["gossip"])
+    if replay_glue(obj, binary, wd):
+        return 0
     if "case" in obj:
         out = run_world(binary, wd, [obj["case"]], tag="replay")[0]
         print(json.dumps({"monitor": world_monitor(obj["case"], out)}, indent=1))
